@@ -104,6 +104,8 @@ def jobs(tier):
                             E('(g_d0 + 1 <= MAXD && vf_exc.pending) ==> STUB_RAISED', 'DEPTH-NO-OWN-EXCEPTION-WITHIN-LIMIT', P)]
                 con.add(Clause('assigns', asg))
                 for c in comb_common(m):
+                    if c.tag == 'EXC-UNCHANGED':      # these rules raise exceptions of their own
+                        c = E('(STUB_RAISED && vf_exc.pending) ==> (vf_exc.obj == g_exc_obj && vf_exc.type == g_exc_type)', 'EXC-UNCHANGED', ('C05',))
                     con.add(c)
                 for c in post:
                     con.add(c)
